@@ -43,10 +43,17 @@ func asTemplate(template string) callMigrator {
 	}
 }
 
-// migrates a function call by joining its parameters with the given delimiter
+// migrates a function call using a template in which the parameters become operands of operators
+func asOperatorTemplate(template string) callMigrator {
+	return func(funcName string, params []string) (string, error) {
+		return asTemplate(template)(funcName, asOperands(params))
+	}
+}
+
+// migrates a function call by joining its parameters with the given operator
 func asJoin(delimiter string) callMigrator {
 	return func(funcName string, params []string) (string, error) {
-		return strings.Join(params, delimiter), nil
+		return strings.Join(asOperands(params), delimiter), nil
 	}
 }
 
@@ -93,7 +100,7 @@ func paramDecremented() paramMigrator {
 		}
 
 		// if not return a decrementing expression
-		return fmt.Sprintf("%s - 1", param)
+		return fmt.Sprintf("%s - 1", asOperand(param))
 	}
 }
 
@@ -122,7 +129,7 @@ var callMigrators = map[string]callMigrator{
 	"days":              asTemplate(`datetime_diff(%[2]s, %[1]s, "D")`),
 	"edate":             asTemplate(`datetime_add(%s, %s, "M")`),
 	"epoch":             asIs(),
-	"exp":               asTemplate(`2.718281828459045 ^ %s`),
+	"exp":               asOperatorTemplate(`2.718281828459045 ^ %s`),
 	"false":             asTemplate(`false`), // becomes just a keyword
 	"field":             asParamMigrators(`field`, paramAsIs(), paramDecremented(), paramAsIs()),
 	"first_word":        asTemplate(`word(%s, 0)`),
@@ -143,7 +150,7 @@ var callMigrators = map[string]callMigrator{
 	"now":               asIs(),
 	"or":                asIs(),
 	"percent":           asIs(),
-	"power":             asTemplate(`%s ^ %s`),
+	"power":             asOperatorTemplate(`%s ^ %s`),
 	"proper":            asRename(`title`),
 	"rand":              asIs(),
 	"randbetween":       asRename(`rand_between`),
@@ -151,7 +158,7 @@ var callMigrators = map[string]callMigrator{
 	"regex_group":       asRename(`regex_match`),
 	"remove_first_word": asIs(),
 	"rept":              asRename(`repeat`),
-	"right":             asTemplate(`text_slice(%[1]s, -%[2]s)`),
+	"right":             asOperatorTemplate(`text_slice(%[1]s, -%[2]s)`),
 	"round":             asIs(),
 	"rounddown":         asRename(`round_down`),
 	"roundup":           asRename(`round_up`),
